@@ -138,6 +138,36 @@ ax("mul_zero", "w v", Op("mul", x, L("w", "v")), L("w", "v"), cond="v == 0")
 ax("mul_one", "w v", Op("mul", x, L("w", "v")), x, cond="v == 1")
 ax("mul_pow2", "w k", Op("mul", x, L("w", "pow2i(k)")), Op("shl", x, L("w", "k")), cond="0 <= k && k < w")
 
+# ---------------------------------------------------------------------------------- textbook identities no shipped rule needs
+# (they make a NEW sound rule provable: without them a correct extension of the simplifier would fail its obligation)
+ax("uge_self", "w", Op("uge", x, x), L(1, 1))
+ax("ugt_self", "w", Op("ugt", x, x), L(1, 0))
+ax("sge_self", "w", Op("sge", x, x), L(1, 1))
+ax("sgt_self", "w", Op("sgt", x, x), L(1, 0))
+ax("ugt_zero_l", "w v", Op("ugt", L("w", "v"), x), L(1, 0), cond="v == 0")
+ax("ugt_ones_r", "w v", Op("ugt", x, L("w", "v")), L(1, 0), cond="v == v_ones(w)")
+ax("uge_as_not_ugt", "w", Op("uge", x, y), Op("not", Op("ugt", y, x)))
+ax("ugt_as_not_uge", "w", Op("ugt", x, y), Op("not", Op("uge", y, x)))
+ax("sge_as_not_sgt", "w", Op("sge", x, y), Op("not", Op("sgt", y, x)))
+ax("sgt_as_not_sge", "w", Op("sgt", x, y), Op("not", Op("sge", y, x)))
+ax("sub_self", "w", Op("sub", x, x), L("w", 0))
+ax("sub_zero", "w v", Op("sub", x, L("w", "v")), x, cond="v == 0")
+ax("sub_as_add_neg", "w", Op("sub", x, y), Op("add", x, Op("neg", y)))
+ax("add_neg_self", "w", Op("add", x, Op("neg", x)), L("w", 0))
+ax("neg_neg", "w", Op("neg", Op("neg", x)), x)
+ax("neg_as_not_plus_one", "w", Op("neg", x), Op("add", Op("not", x), L("w", 1)))
+ax("and_absorb", "w", Op("and", x, Op("or", x, y)), x)
+ax("or_absorb", "w", Op("or", x, Op("and", x, y)), x)
+ax("xor_cancel", "w", Op("xor", x, Op("xor", x, y)), y)
+ax("ite_not_cond", "w", Op("ite", Op("not", c1), x, y), Op("ite", c1, y, x))
+ax("ite_nested_then", "w", Op("ite", c1, Op("ite", c1, x, y), z), Op("ite", c1, x, z))
+ax("ite_nested_else", "w", Op("ite", c1, x, Op("ite", c1, y, z)), Op("ite", c1, x, z))
+ax("zext_zext", "w by iby", Ext("zext", Ext("zext", x, "iby"), "by"), Ext("zext", x, "by + iby"), cond="by >= 0 && iby >= 0")
+ax("shl_of_zero", "w v", Op("shl", L("w", "v"), x), L("w", "v"), cond="v == 0")
+ax("lshr_of_zero", "w v", Op("lshr", L("w", "v"), x), L("w", "v"), cond="v == 0")
+ax("ashr_of_zero", "w v", Op("ashr", L("w", "v"), x), L("w", "v"), cond="v == 0")
+ax("add_self_as_shl", "w", Op("add", x, x), Op("shl", x, L("w", 1)), cond="w >= 2")
+
 # ---------------------------------------------------------------------------------- literal folding (definitions of v_*)
 for op in ("and", "or", "xor", "add", "sub", "mul", "shl", "lshr", "ashr"):
     ax(f"fold_{op}", "w", Op(op, L("w", a), L("w", b)), L("w", VOp(f"v_{op}", "w", a, b)), vals="a b", kind="definition")
